@@ -626,6 +626,143 @@ func partC(r *vk.Run) int64 {
 	return n
 }
 
+// partE: batches. codec.UnmarshalArray decodes a batch of datagrams into a slice: element k is what
+// Unmarshal makes of datagram k on its own - whatever the other datagrams of the batch are. For
+// every message type: batches of two and three datagrams drawn from {two different valid encodings,
+// the first with every byte after the 8-byte header set to 0xff, 0x00, 0x99} in every order; each
+// element is compared with the single decode of its datagram (value, nil-ness of pointer fields,
+// and no pointer shared between two elements).
+func partE(r *vk.Run) int64 {
+	var n int64
+	for _, proto := range msgTypes {
+		t := reflect.TypeOf(proto)
+		var sl []slot
+		slots(t, nil, &sl)
+		mk := func(pick int) []byte {
+			v := reflect.New(t).Elem()
+			for i, s := range sl {
+				a := alphabet(s.typ, true)
+				if len(a) == 0 {
+					return nil
+				}
+				v.FieldByIndex(s.index).Set(a[(i+pick)%len(a)])
+			}
+			b, err := codec.Marshal(v.Interface())
+			if err != nil || len(b) != 64 {
+				return nil
+			}
+			return b
+		}
+		a, b := mk(1), mk(2)
+		if a == nil || b == nil {
+			continue
+		}
+		pool := [][]byte{a, b}
+		for _, fill := range []byte{0xff, 0x00, 0x99} {
+			c := append([]byte{}, a...)
+			for k := 8; k < 64; k++ {
+				c[k] = fill
+			}
+			pool = append(pool, c)
+		}
+		// ... and the first encoding with only the bytes of its pointer-typed (optional) fields set to 0xff
+		// and to 0x00: those fields alone become 'no value'
+		for _, fill := range []byte{0xff, 0x00} {
+			c := append([]byte{}, a...)
+			touched := false
+			for _, sf := range sl {
+				if sf.typ.Kind() != reflect.Ptr {
+					continue
+				}
+				var off int
+				tag := t.FieldByIndex(sf.index).Tag.Get("uhppote")
+				if _, err := fmt.Sscanf(tag[strings.Index(tag, "offset:")+7:], "%d", &off); err != nil || !strings.Contains(tag, "offset:") {
+					continue
+				}
+				w := map[reflect.Type]int{reflect.TypeOf(&types.HHmm{}): 2, reflect.TypeOf(&types.Date{}): 4, reflect.TypeOf(&types.DateTime{}): 7}[sf.typ]
+				for k := off; k < off+w && k < 64; k++ {
+					c[k] = fill
+					touched = true
+				}
+			}
+			if touched {
+				pool = append(pool, c)
+			}
+		}
+		single := func(d []byte) (reflect.Value, error) {
+			p := reflect.New(t)
+			err := codec.Unmarshal(append([]byte{}, d...), p.Interface())
+			return p.Elem(), err
+		}
+		var batches [][]int
+		for i := range pool {
+			for j := range pool {
+				batches = append(batches, []int{i, j})
+				if i < 2 || j < 2 {
+					for k := range pool {
+						batches = append(batches, []int{i, j, k})
+					}
+				}
+			}
+		}
+		for _, ix := range batches {
+			n++
+			batch := [][]byte{}
+			allOK := true
+			want := []reflect.Value{}
+			for _, i := range ix {
+				batch = append(batch, append([]byte{}, pool[i]...))
+				w, err := single(pool[i])
+				allOK = allOK && err == nil
+				want = append(want, w)
+			}
+			arr := reflect.New(reflect.SliceOf(t))
+			var err error
+			cs := map[string]any{"type": t.Name(), "batch": func() []string {
+				out := []string{}
+				for _, d := range batch {
+					out = append(out, vk.Hex(d))
+				}
+				return out
+			}()}
+			if p, msg, frame := vk.Guard(func() { err = codec.UnmarshalArray(batch, arr.Interface()) }); p {
+				r.Violation("C05/UnmarshalArray-panic/"+frame, t.Name()+": "+msg, "batch", cs)
+				continue
+			}
+			if !allOK {
+				continue // a datagram of the batch does not decode on its own: what the batch call does then is not judged
+			}
+			if err != nil || arr.Elem().Len() != len(batch) {
+				r.Violation("C05/UnmarshalArray/rejects-decodable-batch", fmt.Sprintf("%s: every datagram decodes on its own; the batch gives err=%v, %d elements", t.Name(), err, arr.Elem().Len()), "batch", cs)
+				continue
+			}
+			ptrs := map[uintptr]int{}
+			for k := range batch {
+				got := arr.Elem().Index(k)
+				for _, s := range sl {
+					g, w := got.FieldByIndex(s.index), want[k].FieldByIndex(s.index)
+					if s.typ.Kind() == reflect.Ptr {
+						if g.IsNil() != w.IsNil() {
+							r.Violation("C05/UnmarshalArray/element-differs-from-single-decode/"+s.typ.String(), fmt.Sprintf("%s.%s of element %d: nil=%v in the batch, nil=%v decoded on its own", t.Name(), s.name, k, g.IsNil(), w.IsNil()), "batch", cs)
+							continue
+						}
+						if !g.IsNil() {
+							if prev, ok := ptrs[g.Pointer()]; ok && prev != k {
+								r.Violation("C05/UnmarshalArray/elements-share-storage", fmt.Sprintf("%s.%s: elements %d and %d hold the same pointer", t.Name(), s.name, prev, k), "batch", cs)
+							}
+							ptrs[g.Pointer()] = k
+						}
+					}
+					if !same(s.typ, w, g) {
+						r.Violation("C05/UnmarshalArray/element-differs-from-single-decode/"+s.typ.String(), fmt.Sprintf("%s.%s of element %d: %s in the batch, %s decoded on its own", t.Name(), s.name, k, show(g), show(w)), "batch", cs)
+					}
+				}
+			}
+		}
+	}
+	return n
+}
+
 // partD: every message type the dispatchers hand out - whatever codes they know, found by asking
 // them, not taken from the reference table - decodes only datagrams that carry its own function
 // code and the protocol id: the type returned for code c, decoded directly through the codec from a
@@ -728,8 +865,10 @@ func main() {
 	nb := partB(r)
 	nc := partC(r)
 	nd := partD(r)
-	r.Count(nb + nc + nd)
-	distinct += nb + nc + nd
+	ne := partE(r)
+	r.Count(nb + nc + nd + ne)
+	distinct += nb + nc + nd + ne
+	r.Add("batch_decode_cases", ne)
 	r.Add("message_type_header_cases", nd)
 	r.Add("unused_byte_cases", nb)
 	r.Add("dispatcher_cases", nc)
@@ -784,7 +923,7 @@ func main() {
 	r.Distinct(distinct)
 	r.Sample(map[string]any{"type": "PutCardRequest", "fields": "CardNumber=0x01020304 From=2024-02-29 To=9999-12-31 Door1..4 PIN=999999", "check": "Unmarshal(Marshal(v)) == v, UnmarshalAs likewise"})
 	r.Sample(map[string]any{"type": "GetTimeResponse", "zone": "Asia/Tehran", "fields": "DateTime=<zero>", "check": "decodes back to the zero value"})
-	r.Rule("(A) 65 message struct types: baseline + all-zero value + every field over its in-domain alphabet (all uint8, all 1441 HH:mm, 15 civil dates incl. the zero value, date-times incl. zero, ...) + all field pairs over boundary alphabets + every ordered pair of boundary values of one field as two consecutive round trips, through Unmarshal, UnmarshalAs and (types with pointer fields) Unmarshal into a receiver whose pointer fields all refer to one shared object, every decode from one reused 64-byte input buffer that is overwritten afterwards; date-bearing types repeated in every listed zone; (B) every uncovered byte x 255 values for 32 request + 31 reply layouts through the dispatchers; (C) 256 codes x 4 protocol ids x lengths 0..128 (all lengths for 16 codes, stride otherwise) through both dispatchers; (D) every message type either dispatcher returns for any of the 256 codes, decoded directly from datagrams carrying each of the 255 other codes and 3 protocol ids: must fail. distinct = cases generated (each a distinct value/byte string)")
+	r.Rule("(A) 65 message struct types: baseline + all-zero value + every field over its in-domain alphabet (all uint8, all 1441 HH:mm, 15 civil dates incl. the zero value, date-times incl. zero, ...) + all field pairs over boundary alphabets + every ordered pair of boundary values of one field as two consecutive round trips, through Unmarshal, UnmarshalAs and (types with pointer fields) Unmarshal into a receiver whose pointer fields all refer to one shared object, every decode from one reused 64-byte input buffer that is overwritten afterwards; date-bearing types repeated in every listed zone; (B) every uncovered byte x 255 values for 32 request + 31 reply layouts through the dispatchers; (C) 256 codes x 4 protocol ids x lengths 0..128 (all lengths for 16 codes, stride otherwise) through both dispatchers; (D) every message type either dispatcher returns for any of the 256 codes, decoded directly from datagrams carrying each of the 255 other codes and 3 protocol ids: must fail; (E) UnmarshalArray over batches of two and three datagrams (two valid encodings and three corrupted ones per type, every order): each element equals the single decode of its datagram and shares no pointer with another. distinct = cases generated (each a distinct value/byte string)")
 	r.Assume("which bytes belong to a field comes from the hand-written layouts in spec/protocol.go")
 	r.Assume("in-domain date-times are civil times that exist in the process zone (constructed with time.Date in that zone)")
 	r.Finish()
